@@ -103,6 +103,22 @@ def cab_scenarios(rng, tier):
     c.exp_order = [0, 1]
     for mi in c.exp_order: sc.op("cab_extract", "c0", mi, "out%d" % mi)
     out.append((c, sc, "directed small-window Quantum"))
+    # directed (own generator state): LZX folders in which a stored-type block's header ends exactly on a 16-bit word boundary, so that a
+    # whole word of padding stands between header and data (one in sixteen transitions from a compressed block)
+    from vlib import lzxenc
+    found = 0
+    for k in range(600):
+        if found >= (3 if tier == "quick" else 12): break
+        rk = random.Random(16000 + k); before = lzxenc.STATS['pad16']
+        fo = cabfmt.Folder(("lzx", 16), [cabfmt.Member(b"p0.bin", length=3000), cabfmt.Member(b"p1.bin", length=2500)]); fo.prepare(rk)
+        if lzxenc.STATS['pad16'] == before: continue
+        found += 1
+        c = gen.CabCase(); c.folders = [fo]; c.parts = ["in0.cab"]; c.members = list(fo.members)
+        c.files["in0.cab"] = cabfmt.build_cab([(fo.comp_type(), fo.blocks)], [(m.name, m.length, 3000 * j, 0, m.date, m.time, m.attribs) for j, m in enumerate(fo.members)])      # (the stream as prepared)
+        sc = scenario.Scn().file("in0.cab", c.files["in0.cab"]).op("cab_new").op("cab_param", 2, [4096, 4, 64][found % 3]).op("cab_open", "c0", "in0.cab")
+        c.exp_order = [0, 1]
+        for mi in c.exp_order: sc.op("cab_extract", "c0", mi, "out%d" % mi)
+        out.append((c, sc, "directed LZX stored block after a full padding word"))
     for i in range(n2):
         c = gen.cab_set(rng)
         sc = scenario.Scn()
